@@ -13,6 +13,18 @@ package smgp30
 //@   theory T1
 //@   layout dec
 
+//@ func (l *Login) GetCommand
+//@   layout cmd
+
+//@ func (l *Login) GenEmptyResponse
+//@   layout resp
+
+//@ func (p *Login) SetSequenceID
+//@   layout setseq
+
+//@ func (l *Login) GetSequenceID
+//@   layout getseq
+
 //@ func (c *LoginResp) IEncode
 //@   theory T1
 //@   layout enc
@@ -20,6 +32,18 @@ package smgp30
 //@ func (c *LoginResp) IDecode
 //@   theory T1
 //@   layout dec
+
+//@ func (l *LoginResp) GetCommand
+//@   layout cmd
+
+//@ func (l *LoginResp) GenEmptyResponse
+//@   layout resp
+
+//@ func (c *LoginResp) SetSequenceID
+//@   layout setseq
+
+//@ func (l *LoginResp) GetSequenceID
+//@   layout getseq
 
 //@ func (s *Submit) IEncode
 //@   theory T1
@@ -29,6 +53,18 @@ package smgp30
 //@   theory T1
 //@   layout dec
 
+//@ func (s *Submit) GetCommand
+//@   layout cmd
+
+//@ func (s *Submit) GenEmptyResponse
+//@   layout resp
+
+//@ func (s *Submit) SetSequenceID
+//@   layout setseq
+
+//@ func (s *Submit) GetSequenceID
+//@   layout getseq
+
 //@ func (s *SubmitResp) IEncode
 //@   theory T1
 //@   layout enc
@@ -36,6 +72,18 @@ package smgp30
 //@ func (s *SubmitResp) IDecode
 //@   theory T1
 //@   layout dec
+
+//@ func (s *SubmitResp) GetCommand
+//@   layout cmd
+
+//@ func (s *SubmitResp) GenEmptyResponse
+//@   layout resp
+
+//@ func (s *SubmitResp) SetSequenceID
+//@   layout setseq
+
+//@ func (s *SubmitResp) GetSequenceID
+//@   layout getseq
 
 //@ func (d *Deliver) IEncode
 //@   theory T1
@@ -45,6 +93,18 @@ package smgp30
 //@   theory T1
 //@   layout dec
 
+//@ func (d *Deliver) GetCommand
+//@   layout cmd
+
+//@ func (d *Deliver) GenEmptyResponse
+//@   layout resp
+
+//@ func (d *Deliver) SetSequenceID
+//@   layout setseq
+
+//@ func (d *Deliver) GetSequenceID
+//@   layout getseq
+
 //@ func (d *DeliverResp) IEncode
 //@   theory T1
 //@   layout enc
@@ -52,6 +112,18 @@ package smgp30
 //@ func (d *DeliverResp) IDecode
 //@   theory T1
 //@   layout dec
+
+//@ func (d *DeliverResp) GetCommand
+//@   layout cmd
+
+//@ func (d *DeliverResp) GenEmptyResponse
+//@   layout resp
+
+//@ func (d *DeliverResp) SetSequenceID
+//@   layout setseq
+
+//@ func (d *DeliverResp) GetSequenceID
+//@   layout getseq
 
 //@ func (p *ActiveTest) IEncode
 //@   theory T1
@@ -61,6 +133,18 @@ package smgp30
 //@   theory T1
 //@   layout dec
 
+//@ func (a *ActiveTest) GetCommand
+//@   layout cmd
+
+//@ func (a *ActiveTest) GenEmptyResponse
+//@   layout resp
+
+//@ func (p *ActiveTest) SetSequenceID
+//@   layout setseq
+
+//@ func (p *ActiveTest) GetSequenceID
+//@   layout getseq
+
 //@ func (pr *ActiveTestResp) IEncode
 //@   theory T1
 //@   layout enc
@@ -68,6 +152,18 @@ package smgp30
 //@ func (pr *ActiveTestResp) IDecode
 //@   theory T1
 //@   layout dec
+
+//@ func (a *ActiveTestResp) GetCommand
+//@   layout cmd
+
+//@ func (a *ActiveTestResp) GenEmptyResponse
+//@   layout resp
+
+//@ func (pr *ActiveTestResp) SetSequenceID
+//@   layout setseq
+
+//@ func (a *ActiveTestResp) GetSequenceID
+//@   layout getseq
 
 //@ func (t *Exit) IEncode
 //@   theory T1
@@ -77,6 +173,18 @@ package smgp30
 //@   theory T1
 //@   layout dec
 
+//@ func (e *Exit) GetCommand
+//@   layout cmd
+
+//@ func (e *Exit) GenEmptyResponse
+//@   layout resp
+
+//@ func (t *Exit) SetSequenceID
+//@   layout setseq
+
+//@ func (t *Exit) GetSequenceID
+//@   layout getseq
+
 //@ func (t *ExitResp) IEncode
 //@   theory T1
 //@   layout enc
@@ -85,4 +193,40 @@ package smgp30
 //@   theory T1
 //@   layout dec
 
+//@ func (e *ExitResp) GetCommand
+//@   layout cmd
+
+//@ func (e *ExitResp) GenEmptyResponse
+//@   layout resp
+
+//@ func (t *ExitResp) SetSequenceID
+//@   layout setseq
+
+//@ func (e *ExitResp) GetSequenceID
+//@   layout getseq
+
+//@ func DecodeSMGP30
+//@   layout dispatch
+
 // ---- hand-written below ----
+
+//@ func (s *Submit) IEncode
+//@   loop 1
+//@     invariant packet.winv(b)
+//@     invariant -1 <= rangeindex && rangeindex < len(s.DestTermID)
+//@     invariant entry(packet.wfailed(b)) ==> packet.wfailed(b)
+//@     invariant !entry(packet.wfailed(b)) && (forall j int :: 0 <= j && j <= rangeindex ==> len(s.DestTermID[j]) <= 21) ==> !packet.wfailed(b) && packet.view(b) == cat(entry(packet.view(b)), rep(elems(s.DestTermID), 21, 0, rangeindex + 1))
+//@     decreases len(s.DestTermID) - rangeindex
+
+//@ func (s *Submit) IDecode
+//@   loop 1
+//@     invariant packet.rinv(b)
+//@     invariant 0 <= i && i <= int(s.DestTermIDCount)
+//@     invariant len(s.DestTermID) == i
+//@     invariant entry(packet.rfailed(b)) ==> packet.rfailed(b)
+//@     invariant !packet.rfailed(b) ==> len(packet.rem(b)) <= entry(len(packet.rem(b)))
+//@     invariant alloc <= entry(alloc) + 106 * i
+//@     invariant @dec !packet.rfailed(b) && packet.rem(b) == cat(rep(elems(gq.DestTermID), 21, i, len(gq.DestTermID)), laysuffix(gq, "DestTermID"))
+//@     invariant @dec forall j int :: 0 <= j && j < i ==> s.DestTermID[j] == gq.DestTermID[j]
+//@     invariant @safe !packet.rfailed(b) ==> (forall j int :: 0 <= j && j < i ==> nonul(s.DestTermID[j]) && len(s.DestTermID[j]) <= 21)
+//@     decreases int(s.DestTermIDCount) - i
